@@ -44,12 +44,12 @@ Combined Scheme pipe_mutind from pipe_mind, fn_mind, beh_mind, pipes_mind.
 Theorem pipeline_allocs_le_steps : forall p, allocs_pipeline p <= steps p.
 Proof. intro p. apply blocks_le_nsteps. Qed.
 
-Theorem pipeline_allocs_exact : forall p, allocs_pipeline p = length (filter allocating (sites (eval p))).
+Theorem pipeline_allocs_exact : forall p, allocs_pipeline p = length (filter allocating (sites (run p))).
 Proof. intro p. apply blocks_exact. Qed.
 
 (* executed steps never exceed the steps written in the program *)
 Lemma executed_le_written :
-  (forall p, nsteps (sites (eval p)) <= steps_syn p) /\
+  (forall p ov, nsteps (sites (eval ov p)) <= steps_syn p) /\
   (forall f s, nsteps (sites (eval_fn f s)) <= steps_syn_fn f) /\
   (forall b, forall par v sh s, nsteps (sites (eval_fn (Fn par v sh b) s)) <= steps_syn_fn (Fn par v sh b)) /\
   (forall ps m, nsteps (sites (eval_pipes m ps)) <= steps_syn_pipes ps).
@@ -57,19 +57,19 @@ Proof.
   apply pipe_mutind; intros; cbn [eval eval_fn eval_pipes steps_syn steps_syn_fn steps_syn_pipes sites].
   - cbn; lia.
   - cbn; lia.
-  - specialize (H (if stopped e then RErr else RVal)). rewrite nsteps_cons. simpl. lia.
-  - destruct (stopped e); cbn; lia.
+  - specialize (H (if stopped (over ov e) then RErr else RVal)). rewrite nsteps_cons. simpl. lia.
+  - destruct (stopped (over ov e)); cbn; lia.
   - specialize (H m). rewrite nsteps_cons. simpl. lia.
-  - match goal with |- context [eval_fn f ?s] => specialize (H0 s) end.
+  - specialize (H ov). match goal with |- context [eval_fn f ?s] => specialize (H0 s) end.
     rewrite nsteps_app, nsteps_cons. simpl. lia.
-  - match goal with |- context [eval_fn f ?s] => specialize (H0 s) end.
+  - specialize (H ov). match goal with |- context [eval_fn f ?s] => specialize (H0 s) end.
     rewrite nsteps_app, nsteps_cons. simpl. lia.
-  - rewrite nsteps_app. cbn. lia.
-  - rewrite nsteps_app. cbn. lia.
-  - rewrite nsteps_app. cbn. lia.
-  - rewrite nsteps_app. cbn. lia.
-  - rewrite nsteps_app. cbn. lia.
-  - rewrite nsteps_app. cbn. lia.
+  - specialize (H ov). rewrite nsteps_app. cbn. lia.
+  - specialize (H (Some e)). rewrite nsteps_app. cbn. lia.
+  - specialize (H ov). rewrite nsteps_app. cbn. lia.
+  - specialize (H ov). rewrite nsteps_app. cbn. lia.
+  - specialize (H ov). rewrite nsteps_app. cbn. lia.
+  - specialize (H ov). rewrite nsteps_app. cbn. lia.
   - apply (H par v sh s).
   - destruct (invoked par s); cbn; lia.
   - destruct (invoked par s); cbn; lia.
@@ -78,13 +78,13 @@ Proof.
   - destruct (invoked par s); cbn; lia.
   - destruct (invoked par s); cbn; [apply H | lia].
   - cbn; lia.
-  - specialize (H0 m). destruct m; destruct (st (eval p)); cbn [sites]; try rewrite nsteps_app; lia.
+  - specialize (H None). specialize (H0 m). destruct m; destruct (st (eval None p)); cbn [sites]; try rewrite nsteps_app; lia.
 Qed.
 
 Theorem pipeline_allocs_le_written_steps : forall p, allocs_pipeline p <= steps_syn p.
 Proof.
-  intro p. pose proof (pipeline_allocs_le_steps p). pose proof (proj1 executed_le_written p).
-  unfold steps in *. lia.
+  intro p. pose proof (pipeline_allocs_le_steps p). pose proof (proj1 executed_le_written p None).
+  unfold steps, run in *. lia.
 Qed.
 
 (* one more step costs exactly one more block, whatever the callback accepts or returns, whatever the executor, and
@@ -96,15 +96,15 @@ Theorem then_costs_one :
   match b with
   | BAsync inner =>
       let s_in := match a with
-                  | AInline => st (eval q)
-                  | AOn e => if stopped e then RErr else st (eval q)
-                  | AInherit => if stopped (cur_exec q) then RErr else st (eval q)
+                  | AInline => st (run q)
+                  | AOn e => if stopped e then RErr else st (run q)
+                  | AInherit => if stopped (cur_exec None q) then RErr else st (run q)
                   end in
       if invoked par s_in then allocs_pipeline inner else 0
   | _ => 0
   end.
 Proof.
-  intros. unfold allocs_pipeline. cbn [eval sites]. rewrite blocks_app, blocks_cons. cbn [site_blocks]. unfold make_core_blocks.
+  intros. unfold allocs_pipeline, run. cbn [eval sites]. rewrite blocks_app, blocks_cons. cbn [site_blocks]. unfold make_core_blocks.
   destruct b; cbn [eval_fn];
     match goal with |- context [invoked ?p ?s] => destruct (invoked p s) end; cbn [sites]; change (blocks []) with 0; lia.
 Qed.
@@ -114,7 +114,7 @@ Theorem detach_costs_one :
   (forall inner, b <> BAsync inner) ->
   allocs_pipeline (PDetach q a (Fn par v sh b)) = allocs_pipeline q + 1.
 Proof.
-  intros. unfold allocs_pipeline. cbn [eval sites]. rewrite blocks_app, blocks_cons. cbn [site_blocks]. unfold make_core_blocks.
+  intros. unfold allocs_pipeline, run. cbn [eval sites]. rewrite blocks_app, blocks_cons. cbn [site_blocks]. unfold make_core_blocks.
   destruct b; cbn [eval_fn]; try (exfalso; eapply H; reflexivity);
     match goal with |- context [invoked ?p ?s] => destruct (invoked p s) end; cbn [sites]; change (blocks []) with 0; lia.
 Qed.
@@ -125,8 +125,8 @@ Theorem source_costs_one :
   (forall w v e late r th, allocs_pipeline (PProm w v e late r th) = 1) /\
   (forall w e par v sh b, (forall inner, b <> BAsync inner) -> allocs_pipeline (PRun w e (Fn par v sh b)) = 1).
 Proof.
-  repeat split; intros; unfold allocs_pipeline; cbn [eval sites]; try reflexivity.
-  - destruct (stopped e); reflexivity.
+  repeat split; intros; unfold allocs_pipeline, run; cbn [eval sites]; try reflexivity.
+  - unfold over; destruct (stopped e); reflexivity.
   - destruct b; cbn [eval_fn]; try (exfalso; eapply H; reflexivity);
       match goal with |- context [invoked ?p ?s] => destruct (invoked p s) end; reflexivity.
 Qed.
@@ -134,11 +134,15 @@ Qed.
 Theorem conversions_cost_nothing :
   forall q, allocs_pipeline (PToFuture q) = allocs_pipeline q /\
             allocs_pipeline (POnNull q) = allocs_pipeline q /\
-            (forall e, allocs_pipeline (PStartOn q e) = allocs_pipeline q) /\
             allocs_pipeline (PDetach0 q) = allocs_pipeline q.
 Proof.
-  intro q. unfold allocs_pipeline. cbn [eval sites]. repeat split; intros; rewrite blocks_app; cbn; lia.
+  intro q. unfold allocs_pipeline, run. cbn [eval sites]. repeat split; intros; rewrite blocks_app; cbn; lia.
 Qed.
+
+(* Task::ToFuture(e) itself requests nothing: the chain started on e costs what its executed sites cost *)
+Theorem starton_costs_nothing :
+  forall q e, allocs_pipeline (PStartOn q e) = blocks (sites (eval (Some e) q)).
+Proof. intros. unfold allocs_pipeline, run. cbn [eval sites]. rewrite blocks_app. cbn. lia. Qed.
 
 (* ---------------------------------------------------------------------------------------------- combinators *)
 
@@ -146,15 +150,26 @@ Lemma strategy_sum_bound : forall k pol vs oc,
   strategy_build (strategy_of k pol vs) + strategy_done (strategy_of k pol vs) pol oc <= match k with CAll => 2 | _ => 0 end.
 Proof. destruct k, pol, vs, oc; cbn; lia. Qed.
 
+Lemma when_body_bound : forall k pol f ik vs oc t,
+  let s := strategy_of k pol vs in
+  let build := contract_blocks + 1 + strategy_build s + callbacks_vector f ik in
+  let total := build + strategy_done s pol oc in
+  fst (match t with TEarly => (total, total) | TLate => (build, total) end) <=
+  snd (match t with TEarly => (total, total) | TLate => (build, total) end) /\
+  snd (match t with TEarly => (total, total) | TLate => (build, total) end) <= K k f ik.
+Proof.
+  intros. pose proof (strategy_sum_bound k pol vs oc) as B. subst s build total. unfold K, contract_blocks.
+  destruct t; cbn [fst snd]; destruct k; cbn in B |- *; lia.
+Qed.
+
 Theorem combinator_bounded :
   forall k pol f ik vs oc t n,
   fst (when_allocs k pol f ik vs oc t n) <= snd (when_allocs k pol f ik vs oc t n) /\
   snd (when_allocs k pol f ik vs oc t n) <= K k f ik.
 Proof.
-  intros. pose proof (strategy_sum_bound k pol vs oc) as B. unfold when_allocs, K, contract_blocks.
+  intros. unfold when_allocs.
   destruct n as [|n']; [cbn; lia|].
-  destruct k, f, ik, n'; destruct t; cbn [fst snd]; cbn in B |- *; try lia;
-    destruct pol, vs, oc; cbn in *; lia.
+  destruct k, f, ik, n'; try (cbn; lia); apply when_body_bound.
 Qed.
 
 (* the constant is reached (so it is the least one) for every n >= 2 *)
